@@ -527,7 +527,7 @@ theorem lookup_generic {α δ : Type} (W : World) (uuid : Str) (root b : Ast) (n
       rw [hinc, mapGet_mapOfList baseName id b.file.includes hnd pre, hwf b hb, find?_map', hext,
         globalOf_stamped W uuid huuid, hreg]
       cases hr : b.refs.find? (fun r => decide (baseName r.file.filename = pre)) with
-      | none => simp [lookupFD]
+      | none => simp
       | some r =>
         have hrm : r ∈ root.subs := subs_trans root b hb r (Ast.refs_mem_subs b r (List.mem_of_find?_eq_some hr))
         have hrn := hne r hrm
@@ -558,6 +558,24 @@ theorem look_service (uuid : Str) (f : File) (n : Str) : lookService (registerUU
   simp only [lookService, registerUUID, describe, find?_map', Option.map_map]; rfl
 
 /-! ### fields, methods, type descriptors of constants -/
+
+/-- a stamped type descriptor resolves through the registry it is stamped with -/
+theorem typedesc_stamped {α : Type} (W : World) (uuid : Str) (huuid : uuid ≠ []) (p n : Str) (k v : TyO)
+    (look : FileDesc → Str → Option α) :
+    (uuidTy uuid (descTy p (.mk n k v))).getVia W look =
+      if isContainer n || isBasic n then none else lookupIn W (mapGet W.regs uuid) p n look := by
+  simp only [TypeDesc.getVia, uuidTy, descTy, TypeDesc.name, TypeDesc.extra, TypeDesc.filepath, globalOf_stamped W uuid huuid]
+
+theorem method_of_stamped (uuid p : Str) (s : Service) (m : Str) :
+    (uuidService uuid (descService p s)).methodByName m =
+      (s.functions.find? (fun f => f.name = m)).map (fun f => uuidMethod uuid (descMethod p f)) := by
+  simp only [ServiceDesc.methodByName, uuidService, descService, find?_map', Option.map_map]; rfl
+
+theorem lookupMethod_eq (W : World) (g : Option GFD) (path svc m : Str) (h : svc ≠ []) :
+    lookupMethod W g path svc m = (lookupIn W g path svc lookService).bind (·.methodByName m) := by
+  simp only [lookupMethod, lookupIn, getMethodDescriptor, h, if_false]
+  cases lookupFD g path <;> rfl
+
 
 theorem field_by_name (p : Str) (s : StructLike) (n : Str) :
     (descStruct p s).fieldByName n = (s.fields.find? (fun f => f.name = n)).map (descField p) := by
